@@ -92,6 +92,8 @@ def gen_record(rng, n, kind=None, amp=None):
     kind = kind or rng.choice(["noise", "noise", "sines", "sines", "ramp", "ints", "spiky", "decay", "zeros_mostly"])
     amp = amp if amp is not None else rng.choice([0.01, 0.3, 1.0, 1.0, 3.0, 9.81, 250.0])
     out = []
+    if n <= 0:
+        return []
     if kind == "noise":
         out = [rng.gauss(0.0, 1.0) * amp for _ in range(n)]
     elif kind == "sines":
